@@ -40,7 +40,23 @@ fn step(o) {
   try { print('b', binop(o)); } catch e { print('b!', e.cls().name()); }
   try { print('r', read(o)); } catch e { print('r!', e.cls().name()); }
 }
+fn step_inv(o) {
+  try { print('i', inv(o)); } catch e { print('i!', e.cls().name()); }
+  try { print('a', inv1(o)); } catch e { print('a!', e.cls().name()); }
+  try { print('s', sinv(o)); } catch e { print('s!', e.cls().name()); }
+}
+fn step_prop(o) {
+  try { print('r', read(o)); } catch e { print('r!', e.cls().name()); }
+  try { print('w', write(o)); } catch e { print('w!', e.cls().name()); }
+  try { print('b', binop(o)); } catch e { print('b!', e.cls().name()); }
+}
+fn step_get(o) {
+  try { print('g', getcall(o)); } catch e { print('g!', e.cls().name()); }
+}
 """
+# which sites a receiver visits: all of them, or only the invoke sites / only the property sites / only the get-then-call site
+# (an entry of one cache kind must not depend on an entry of another kind keeping the class alive)
+SITES = ["all", "inv", "prop", "get"]
 RECV = {"A": "step(A());", "B": "step(B());", "C": "step(C());", "C2": "step(C2());", "D": "step(D());",
         "N": "step(5);", "S": "step('s');", "L": "step([1]);", "T1": "step(mk1());", "T2": "step(mk2());",
         "GC": "print('@@gc full'); let pad%d = [0];",
@@ -51,12 +67,14 @@ RECV = {"A": "step(A());", "B": "step(B());", "C": "step(C());", "C2": "step(C2(
 ALPHA = ["A", "B", "C", "C2", "D", "N", "T1", "T2", "GC", "FA", "FFA", "cA", "cB", "FFB", "FB", "S", "L"]
 
 
-def prog(hist):
+def prog(hist, sites="all"):
     body = []
     for k, h in enumerate(hist):
         s = RECV[h]
         if h == "GC":
             s = s % k
+        elif sites != "all":
+            s = s.replace("step(", "step_%s(" % sites, 1)
         body.append(s)
     return PRE + "\n".join(body) + "\n"
 
@@ -64,7 +82,7 @@ def prog(hist):
 class C13(Check):
     id = "C13"
     level = "exploration"
-    rule = ("(hist) all receiver histories of length 1..L (L=4 quick, 6 thorough) over a 17 symbol alphabet (13 for length 4, 11 beyond), each run with caches "
+    rule = ("(hist) all receiver histories of length 1..L (L=4 quick, 6 thorough) over a 17 symbol alphabet (13 for length 4, 11 beyond), visiting all sites, and for length <= 3 (4 thorough) also only the invoke / only the property / only the get-then-call sites, each run with caches "
             "on and with hook H4 forcing every lookup to miss; oracle: equal output, and every step equals the output of that "
             "receiver at a fresh site; (corpus) every corpus program on/off. non-trivial = history with >= 2 different receiver "
             "classes at the site (or a corpus program containing a property/invoke site)")
@@ -81,15 +99,18 @@ class C13(Check):
             alpha = ALPHA if n <= 3 else (ALPHA[:13] if n == 4 else ALPHA[:11])
             for h in itertools.product(alpha, repeat=n):
                 yield ("hist", h)
+                if n <= (4 if tier == "thorough" else 3):
+                    for st in SITES[1:]:
+                        yield ("hist", h, st)
         for i in range(len(self.progs)):
             yield ("corpus", i)
 
     def describe(self, spec):
-        return "hist " + " ".join(spec[1]) if spec[0] == "hist" else "corpus " + self.progs[spec[1]][0]
+        return ("hist " + " ".join(spec[1]) + (" (sites: %s)" % spec[2] if len(spec) > 2 else "")) if spec[0] == "hist" else "corpus " + self.progs[spec[1]][0]
 
     def build(self, spec):
         if spec[0] == "hist":
-            src = prog(spec[1])
+            src = prog(spec[1], spec[2] if len(spec) > 2 else "all")
             return [{"src": src, "step_limit": 2000000, "alloc": "reuse_fifo"}, {"src": src, "cache_off": True, "step_limit": 2000000, "alloc": "reuse_fifo"},
                     {"src": src, "step_limit": 2000000, "alloc": "reuse_lifo"}], None
         name, files, entry = self.progs[spec[1]]
@@ -104,7 +125,7 @@ class C13(Check):
                 on.get("class"), on.get("out", "")[-300:], on.get("err", "")[-200:], off.get("class"), off.get("out", "")[-300:], off.get("err", "")[-200:],
                 on.get("panic") or on.get("signal") or ""))
         if spec[0] == "hist":
-            exp = "".join(self.single[h] for h in spec[1])
+            exp = "".join(self.single[(spec[2] if len(spec) > 2 else "all", h)] for h in spec[1])
             if on.get("class") != "ok" or on.get("out") != exp:
                 return Verdict(False, True, "history-dependent", "output depends on the receiver history: expected %r got class=%s %r %s" % (
                     exp[-400:], on.get("class"), on.get("out", "")[-400:], on.get("panic") or ""))
@@ -117,13 +138,14 @@ class C13(Check):
 def main(tier):
     t0 = time.time()
     # length-1 histories with caches bypassed define what each receiver prints at a fresh site
-    singles = map_cases([{"src": prog((a,)), "cache_off": True, "step_limit": 2000000} for a in ALPHA])
+    keys = [(st, a) for st in SITES for a in ALPHA]
+    singles = map_cases([{"src": prog((a,), st), "cache_off": True, "step_limit": 2000000} for st, a in keys])
     single = {}
-    for a, r in zip(ALPHA, singles):
+    for k, r in zip(keys, singles):
         if r.get("class") != "ok":
-            print("MACHINERY: single receiver program for %s did not run: %s %s" % (a, r.get("class"), r.get("err", "")[:300]))
+            print("MACHINERY: single receiver program for %s did not run: %s %s" % (k, r.get("class"), r.get("err", "")[:300]))
             return 2
-        single[a] = r["out"]
+        single[k] = r["out"]
     progs = corpus.rich() + corpus.fixtures()
     try:
         from vlib import spaces
@@ -132,4 +154,4 @@ def main(tier):
         pass
     chk = C13(single, progs)
     merged = explore(chk, tier, cap_s=(1500 if tier == "thorough" else 200))
-    return report.finish(chk, tier, merged, t0, coverage_extra={"single_receiver_outputs": single})
+    return report.finish(chk, tier, merged, t0, coverage_extra={"single_receiver_outputs": {"%s/%s" % k: v for k, v in single.items()}})
